@@ -319,6 +319,15 @@ def op_templates():
             return t.transform(lambda v, i, m: np.where(v > 1, v * 2, 0), axis=ax, inplace=True), [], True
         T["transform-zeroing-inplace-%s" % ax] = f_tr
 
+        # a result that mixes zeros with negative values (the largest entry of each vector becomes 0, the others < 0)
+        def f_shift(t, rng, ax=ax):
+            return t.transform(lambda v, i, m: v - v.max() if len(v) else v, axis=ax, inplace=True), [], True
+        T["transform-shift-inplace-%s" % ax] = f_shift
+
+        def f_shift_c(t, rng, ax=ax):
+            return t.transform(lambda v, i, m: v - v.max() if len(v) else v, axis=ax, inplace=False), [], False
+        T["transform-shiftcopy-%s" % ax] = f_shift_c
+
         def f_concat(t, rng, ax=ax):
             other = _mk_other(rng, t if ax == "sample" else t.transpose(), "concat")
             if ax == "observation":
@@ -425,7 +434,7 @@ def run_history(ctx, cap, templates, start_spec, route, names, impl_name, tags, 
             # a refused/failed operation: the table the user still holds must be coherent;
             # events of an aborted in-place call are replayed so the model follows partial effects
             inplace_call = name.endswith("-True") or name.startswith(
-                ("add-metadata", "del-metadata", "norm-inplace", "transform-zeroing-inplace"))
+                ("add-metadata", "del-metadata", "norm-inplace", "transform-zeroing-inplace", "transform-shift-inplace"))
             # a failed call that works on a private copy leaves the receiver as it was
             ops = model_ops_for(list(cap.events), t, t, True, []) if (cap.events and inplace_call) else []
             # update_ids refusals and the like leave no events
